@@ -263,26 +263,83 @@ def check_wrappers(ctx):
     first = strip_doc(pull.body)[0]
     okp = isinstance(first, ast.If) and norm_src(first.test) == "self.phase > self.N" and len(first.body) == 1 and norm_src(first.body[0]) == "return self.goodx"
     ctx.ob("R07-ARGMAX", okp, c.file, "GPO.pull", "once finished, pull returns the recommendation", norm_src(first)[:80], pull.lineno)
-    # PCT / VPCT: pure delegation to a GPO built with the caller's arguments
+    # PCT / VPCT: pure delegation to a GPO built with the caller's arguments.  The constructor chain is followed through
+    # super().__init__ calls (arguments bound, defaults filled in) and own one-line methods are resolved on the instance's
+    # class, so a wrapper may inherit the forwards and the construction from another wrapper.
     for w, base in (("PCT", "HCT"), ("VPCT", "VHCT")):
         c = model.cls(w)
-        init = model.own_method(w, "__init__")
+        init = model.lookup(w, "__init__")[1]
         ctx.fn("%s.__init__" % w)
-        mk = [x for x in ast.walk(init) if isinstance(x, ast.Call) and isinstance(x.func, ast.Name) and x.func.id == "GPO"]
         params = [a.arg for a in init.args.args][1:]
-        ok = len(mk) == 1 and {k.arg: norm_src(k.value) for k in mk[0].keywords} == dict([(p, p) for p in params] + [("algo", base)]) and not mk[0].args
-        asg = model.up(mk[0]) if mk else None
-        ok = ok and isinstance(asg, ast.Assign) and norm_src(asg.targets[0]) == "self.algorithm"
+        got, why = gpo_construction(model, w, w, {p: "param:" + p for p in params}, 0)
+        want = dict([(p, "param:" + p) for p in params] + [("algo", base)])
+        ok = got == want
         ctx.ob("R07-DELEG", ok, c.file, "%s.__init__" % w, "self.algorithm = GPO(<caller's arguments>, algo=%s)" % base,
-               "%s" % [norm_src(x) for x in mk][:1], init.lineno)
+               "constructed with the caller's own arguments" if ok else "GPO is built with %s (%s); expected %s" % (got, why, want), init.lineno)
         for m, exp in (("pull", "return self.algorithm.pull(%s)"), ("receive_reward", "self.algorithm.receive_reward(%s)"),
                        ("get_last_point", "return self.algorithm.get_last_point(%s)")):
-            fn = model.own_method(w, m)
-            ctx.fn("%s.%s" % (w, m))
+            owner, fn = model.lookup(w, m)
+            if fn is None or owner.name == "Algorithm":
+                ctx.violation("R07-DELEG", c.file, "%s.%s" % (w, m), m, "the wrapper does not define (or inherit from another wrapper) this protocol method")
+                continue
+            ctx.fn("%s.%s" % (owner.name, m))
             body = strip_doc(fn.body)
             args = ", ".join(a.arg for a in fn.args.args[1:])
             ok = len(body) == 1 and norm_src(body[0]) == exp % args
             ctx.ob("R07-DELEG", ok, c.file, "%s.%s" % (w, m), exp % args, "pure forward" if ok else "body is %s" % [norm_src(s) for s in body], fn.lineno)
+
+
+def gpo_construction(model, cls, inst_cls, env, depth):
+    """Arguments of the GPO(...) stored in self.algorithm when `inst_cls` is constructed, following super().__init__ chains:
+    returns ({keyword: 'param:<name of a parameter of inst_cls.__init__>' | source}, explanation)."""
+    if depth > 3:
+        return None, "constructor chain too deep"
+    owner, init = model.lookup(cls, "__init__")
+    if init is None:
+        return None, "no constructor"
+
+    def value(e):
+        if isinstance(e, ast.Name):
+            return env.get(e.id, e.id)
+        if isinstance(e, ast.Call) and isinstance(e.func, ast.Attribute) and isinstance(e.func.value, ast.Name) and e.func.value.id == "self" \
+                and not e.args and not e.keywords:
+            o2, m2 = model.lookup(inst_cls, e.func.attr)          # dynamic dispatch on the instance's class
+            if m2 is not None:
+                b = strip_doc(m2.body)
+                if len(b) == 1 and isinstance(b[0], ast.Return) and b[0].value is not None:
+                    return norm_src(b[0].value)
+        return norm_src(e)
+    for s in ast.walk(init):
+        if isinstance(s, ast.Assign) and any(is_self_attr(t, "algorithm") for t in s.targets) and isinstance(s.value, ast.Call) and \
+                isinstance(s.value.func, ast.Name) and s.value.func.id == "GPO":
+            call = s.value
+            if call.args or any(k.arg is None for k in call.keywords):
+                return None, "GPO built with positional / ** arguments"
+            return {k.arg: value(k.value) for k in call.keywords}, "in %s.__init__" % owner.name
+    for s in ast.walk(init):
+        if isinstance(s, ast.Call) and isinstance(s.func, ast.Attribute) and s.func.attr == "__init__" and isinstance(s.func.value, ast.Call) \
+                and isinstance(s.func.value.func, ast.Name) and s.func.value.func.id == "super":
+            mro = [c2.name for c2 in model.mro(owner.name)]
+            nxt = mro[mro.index(owner.name) + 1] if owner.name in mro and mro.index(owner.name) + 1 < len(mro) else None
+            if nxt is None or nxt == "Algorithm":
+                continue
+            o3, init3 = model.lookup(nxt, "__init__")
+            if init3 is None:
+                continue
+            ps = [a.arg for a in init3.args.args][1:]
+            defaults = init3.args.defaults
+            env2 = {}
+            for pn, a in zip(ps, s.args):
+                env2[pn] = value(a)
+            for k in s.keywords:
+                if k.arg in ps:
+                    env2[k.arg] = value(k.value)
+            for pn, d in zip(ps[len(ps) - len(defaults):], defaults):
+                env2.setdefault(pn, "default:" + norm_src(d))
+            if set(env2) != set(ps):
+                return None, "super().__init__ call does not bind every parameter"
+            return gpo_construction(model, o3.name, inst_cls, env2, depth + 1)
+    return None, "no GPO is stored in self.algorithm"
 
 
 def argmax_expr(fn, e, scores, container):
